@@ -104,10 +104,10 @@ PROPS = {
         theorems=['C15_retain'],
     ),
     'C16': dict(
-        corr_only=['panic_state', 'panic_drops', 'calls_size', 'calls_hash', 'calls_closure'],
-        comps=['panic_state', 'panic_drops', 'panic_ri', 'panic_acc', 'panic_nodup', 'panic_bound', 'panic_lost', 'panic_ledger', 'panic_order', 'calls_size', 'calls_hash', 'calls_closure'] +
+        corr_only=['panic_state', 'panic_bsim', 'panic_drops', 'calls_size', 'calls_hash', 'calls_closure'],
+        comps=['panic_state', 'panic_bsim', 'panic_drops', 'panic_ri', 'panic_acc', 'panic_nodup', 'panic_bound', 'panic_lost', 'panic_ledger', 'panic_order', 'calls_size', 'calls_hash', 'calls_closure'] +
               [(c, None, 'panic') for c in ('drop_once', 'mon_c07', 'api_map', 'api_len', 'api_order', 'mon_c04', 'addr_stable')],
-        theorems=['C16_all_points', 'C16_closure', 'C16_predicate', 'C16_clone', 'C16_between_primitives'],
+        theorems=['C16_all_points', 'C16_closure', 'C16_predicate', 'C16_clone', 'C16_between_primitives', 'C16_pointer_level_points'],
         assumptions=['panics are injected at the n-th Hash / Eq / Clone / HeapSize call and in the mutate closure / retain predicate of the instrumented types, for every such call each candidate operation makes in each generated state; the unwind is caught, the cache is used further and dropped',
                      'Eq call counts depend on hashbrown probing: an Eq panic must land in one of the states the model lists for comparisons of that operation',
                      'panics in Drop implementations are outside the property'],
